@@ -236,6 +236,39 @@ def verdicts_mapped(ctx, w, inps, marks, res, wit):
     return False
 
 
+def twin_wrappers(ctx, is_async, renamed):
+    """Two wrappers of ONE inner graph, each with its own binding of the same name, side by side in one outer graph:
+    each bound object must reach its own wrapper's node (and only that one) as the very object that was bound."""
+    got = {}
+
+    def work(x, store):
+        got.setdefault(id(store), []).append(x)
+        store.append(x)
+        return len(store)
+    B1, B2 = [], []
+    with warnings.catch_warnings():
+        warnings.simplefilter("ignore")
+        inner = Graph([FunctionNode(work, name="work", output_name="n")], name="inner")
+        w1 = inner.bind(store=B1).as_node(name="w1").with_outputs(n="n1").with_inputs(x="x1")
+        w2 = inner.bind(store=B2).as_node(name="w2").with_outputs(n="n2").with_inputs(x="x2")
+        if renamed:
+            w1, w2 = w1.with_inputs(store="book"), w2.with_inputs(store="book")
+        g = Graph([w1, w2])
+        vals = {"x1": "a", "x2": "b"}
+        runner = AsyncRunner() if is_async else SyncRunner()
+        r = asyncio.run(runner.run(g, vals, on_internal_override="ignore")) if is_async else runner.run(g, vals, on_internal_override="ignore")
+    ctx.count()
+    ctx.traces()
+    wit = {"case": "twin-wrappers", "runner": "async" if is_async else "sync", "renamed_input": renamed, "status": r.status.value,
+           "B1": list(B1), "B2": list(B2), "values": {k: v for k, v in r.values.items()}}
+    if r.status.value != "completed":
+        return ctx.violation("run-failed", wit, f"twin wrappers: {r.status} {r.error}")
+    if B1 != ["a"] or B2 != ["b"]:
+        return ctx.violation("bound-value-of-sibling-wrapper-used", wit,
+                             f"each wrapper binds its own object, yet after the run B1={B1} B2={B2} (expected ['a'] and ['b']): a wrapper's node received its sibling's bound object")
+    return False
+
+
 def schedules(n, bug="none"):
     cfg = f"_c18_{os.getpid()}_{n}_{bug}.cfg"
     path = os.path.join(tlc.SPEC_DIR, cfg)
@@ -315,6 +348,9 @@ def run(tier, seed):
                         n_map += 1
                         verdicts_mapped(ctx, *out, wit)
     ctx.bump("map_item_replays", n_map)
+    for is_async in (False, True):
+        for renamed in (False, True):
+            twin_wrappers(ctx, is_async, renamed)
     ctx.bump("interleaved_async_replays", n_async)
     ctx.bump("sequential_sync_replays", n_sync)
     ctx.sample({"schedule": all_scheds[len(all_scheds) // 2][1]})
